@@ -572,6 +572,48 @@ Theorem merged_profile_closed : forall (ps : list pprofile) (st : mstate),
 Proof. exact ProfSaneProofs.merged_profile_closed. Qed.
 Print Assumptions merged_profile_closed.
 
+(* sanitize_keeps_samples / payload_merge_totals_raw.  sanitizeProfile drops no sample of a well-formed payload (wf_raw_b: what the
+   writer stores -- an obligation of the check on every stored payload): every mapping, function and location reference is found
+   again by the renumbering passes, so no location and no sample is removed and no value is touched.  Hence, for any number of
+   payloads whose merged ones are well formed, merged without a refusal: for every sample type the values of the merged
+   profile add up to the sum of the sample values of the RAW payloads (mod 2^64) -- "totals are the sums of the inputs" for
+   the payload merge, stated on the stored messages themselves, not on their sanitized form.  (A payload Merge skips -- no
+   samples, or fewer than two strings -- contributes nothing: raw_totals says so.) *)
+From Qryn Require Import proofs.ProfKeepProofs.
+Theorem sanitize_keeps_samples : forall p : pprofile,
+  wf_raw_b p = true -> map s_vals (p_samps (sanitize p)) = map s_vals (p_samps p).
+Proof. exact ProfKeepProofs.sanitize_keeps_samples. Qed.
+Print Assumptions sanitize_keeps_samples.
+
+Theorem payload_merge_totals_raw : forall (ps : list pprofile) (st : mstate),
+  merge_all exact_keqs mstate0 ps = inl st -> Z.of_nat (length (ms_funs st)) < two32 ->
+  Forall (fun p => merged_in p = true -> wf_raw_b p = true) ps ->
+  forall k : nat, (k < length (p_types (merged_profile st)))%nat ->
+  eqm (ProfRewrite.weight all_stacks k (merged_profile st)) (raw_totals k ps).
+Proof. exact ProfKeepProofs.payload_merge_totals_raw. Qed.
+Print Assumptions payload_merge_totals_raw.
+
+(* sanitize_keeps_weight / payload_merge_is_sum_raw.  ... and stack by stack: for a well-formed payload (distinct non-zero ids,
+   references resolve, function string indices in range, one value per type) the renumbered ids, looked up in the renumbered
+   tables through the swapped string table, resolve to the same functions, so EVERY selection of resolved stacks keeps its
+   weight through sanitizeProfile.  Hence payload_merge_is_sum on the RAW stored payloads: any number of payloads whose merged
+   ones are well formed (an obligation of the check on every writer-stored payload), merged without a refusal, fewer than 2^32
+   merged functions: for every predicate on resolved stacks and every sample type the merged profile gives the selected stacks
+   the sum of the weights the payloads THEMSELVES give them (mod 2^64). *)
+From Qryn Require Import proofs.ProfKeepWeightProofs.
+Theorem sanitize_keeps_weight : forall p : pprofile, wf_raw_b p = true ->
+  forall (P : list (list fden) -> bool) (k : nat), ProfRewrite.weight P k (sanitize p) = ProfRewrite.weight P k p.
+Proof. exact ProfKeepWeightProofs.sanitize_keeps_weight. Qed.
+Print Assumptions sanitize_keeps_weight.
+
+Theorem payload_merge_is_sum_raw : forall (ps : list pprofile) (st : mstate),
+  merge_all exact_keqs mstate0 ps = inl st -> Z.of_nat (length (ms_funs st)) < two32 ->
+  Forall (fun p => merged_in p = true -> wf_raw_b p = true) ps ->
+  forall (P : list (list fden) -> bool) (k : nat), (k < length (p_types (merged_profile st)))%nat ->
+  eqm (ProfRewrite.weight P k (merged_profile st)) (raw_weights P k ps).
+Proof. exact ProfKeepWeightProofs.payload_merge_is_sum_raw. Qed.
+Print Assumptions payload_merge_is_sum_raw.
+
 (* ---- the exact class of node-id collisions, acyclicity of stored trees, int64 overflow (proofs/ProfCycleProofs.v) *)
 From Qryn Require Import proofs.ProfCycleProofs.
 
